@@ -344,11 +344,24 @@ def oracle_exact(tn, c):
             return A[tuple(np.asarray(I).T)]
         info = {}
         cache = {} if c['cache'] else None
-        with warnings.catch_warnings():
-            warnings.simplefilter('ignore')
-            with np.errstate(all='ignore'):
-                Y = tn.cross(f, [G.copy() for G in Y0], nswp=c['nswp'], dr_min=c['dr_min'], dr_max=c['dr_max'],
-                             info=info, cache=cache, I_vld=I_vld, y_vld=y_vld, m_cache_scale=10 ** 9)
+        o_mv = tn._maxvol
+
+        def w_mv(Am, *a, **k):
+            I, B = o_mv(Am, *a, **k)
+            if not k:
+                w = maxvol_window_bad(np.shape(Am), a, len(I))
+                if w and not mvbad:
+                    mvbad.append(w)
+            return I, B
+        tn._maxvol = w_mv
+        try:
+            with warnings.catch_warnings():
+                warnings.simplefilter('ignore')
+                with np.errstate(all='ignore'):
+                    Y = tn.cross(f, [G.copy() for G in Y0], nswp=c['nswp'], dr_min=c['dr_min'], dr_max=c['dr_max'],
+                                 info=info, cache=cache, I_vld=I_vld, y_vld=y_vld, m_cache_scale=10 ** 9)
+        finally:
+            tn._maxvol = o_mv
         return Y, info, ncall[0]
 
     def check(Y, info, tag):
@@ -361,6 +374,9 @@ def oracle_exact(tn, c):
         if c['kind'] == 'fixed' and rk != list(c['rho']):
             return fail(tag + 'fixed-rank run changed the ranks', got=rk, expected=c['rho'])
         if not all(rk[k] >= c['rho'][k] for k in range(d + 1)):
+            if c.get('must_reach') and not tag:
+                return fail('rank growth (dr_min >= 1, enough sweeps) did not bring the working ranks to rho', got=rk,
+                            expected=c['rho'])
             return None                # premise of the property (working ranks reached rho) not met
         err = np.linalg.norm(full(Y) - A) / nA
         if not err <= 1e-6:
@@ -370,10 +386,13 @@ def oracle_exact(tn, c):
             return fail(tag + 'info[e_vld] not small although the target is reproduced', got=float(info['e_vld']))
         return None
 
+    mvbad = []
     try:
         Y, info, ncall = run(None)
     except Exception as e:  # noqa
         return fail('cross raised ' + repr(e)[:300])
+    if mvbad:
+        return fail('_maxvol returned a number of rows outside the dr_min / dr_max window: ' + mvbad[0])
     fl = check(Y, info, '')
     if fl:
         return fl
@@ -397,6 +416,123 @@ def oracle_exact(tn, c):
         fl = check(Y, info, 'interrupted run: ')
         if fl:
             return fl
+    return None
+
+
+
+def _cross_call(tn, cfg, info_mode, shared):
+    """one cross call on cfg; info_mode: 'fresh' (info={}), 'shared' (the dict `shared`), 'default' (info omitted:
+    the module-level default dict of cross is used)"""
+    import inspect
+    g = lambda I: L.gfun(cfg['a'], cfg['b'], cfg['p'], I)
+    ncall = [0]
+
+    def f(I):
+        ncall[0] += 1
+        if ncall[0] > 4000:
+            raise L.TooLong()
+        return g(np.asarray(I))
+    cache = None if cfg['cache'] is None else {tuple(i): float(v) for i, v in cfg['cache']}
+    kw = dict(m=cfg['m'], e=cfg['e'], nswp=cfg['nswp'], dr_min=cfg['dr_min'], dr_max=cfg['dr_max'], cache=cache,
+              m_cache_scale=cfg['scale'])
+    if info_mode == 'fresh':
+        kw['info'] = info = {}
+    elif info_mode == 'shared':
+        kw['info'] = info = shared
+    else:
+        info = inspect.signature(tn.cross).parameters['info'].default
+    with warnings.catch_warnings():
+        warnings.simplefilter('ignore')
+        with np.errstate(all='ignore'):
+            Y = tn.cross(f, L.make_Y0(cfg), **kw)
+    return Y, {k: info.get(k) for k in ('nswp', 'stop', 'm', 'm_cache', 'r', 'e', 'e_vld', 'm_max', 'with_cache')}, cache
+
+
+def gen_history(rng):
+    n = rng.choice([2, 2, 3])
+    calls = []
+    for k in range(n):
+        cfg = _pair_cfg(rng, small=rng.random() < 0.5)
+        cfg.update(hasI=False, hasy=False, e_vld=None, kcb=None, kNone=None)
+        if cfg['m'] is None and cfg['e'] is None and cfg['nswp'] is None:
+            cfg['nswp'] = 2
+        cfg['scale'] = rng.choice([5, 5, 2, 1])
+        # first call with a cache (it leaves cache-hit counts behind), then a mix
+        withc = (k == 0) or rng.random() < 0.4
+        cfg['cache'] = ([] if cfg['cache'] is None else cfg['cache']) if withc else None
+        calls.append(cfg)
+    return dict(mode=rng.choice(['shared', 'default']), calls=calls)
+
+
+def oracle_history(tn, h):
+    """a sequence of cross calls in one process that reuse one info dict (or all use the module default): every call
+    must behave exactly like the same call made with a fresh info dict"""
+    shared = {}
+    for k, cfg in enumerate(h['calls']):
+        cfg = dict(cfg)
+        if cfg.get('cache') is not None:
+            cfg['cache'] = [(list(i), v) for i, v in cfg['cache']]
+        try:
+            Ys, infs, cs = _cross_call(tn, cfg, h['mode'], shared)
+            Yf, inff, cf = _cross_call(tn, cfg, 'fresh', None)
+        except L.TooLong:
+            return None
+        except Exception as e:  # noqa
+            return dict(what='C05: cross raised in a call sequence ' + repr(e)[:200], input=dict(history=h), call=k)
+        bad = None
+        if not cores_equal(Ys, Yf):
+            bad = 'returned cores'
+        else:
+            for key in infs:
+                a, b = infs[key], inff[key]
+                same = (a == b) if not (isinstance(a, float) or isinstance(b, float)) else \
+                    (a is not None and b is not None and feq(a, b))
+                if not same:
+                    bad = f'info[{key}]'
+                    break
+        if bad is None and cs != cf:
+            bad = 'cache dictionary'
+        if bad:
+            return dict(what=f'C05: call {k} of a sequence sharing info ({h["mode"]}) differs from the same call in a '
+                             f'fresh state: {bad}', input=dict(history=h), call=k,
+                        got={k_: (float(v) if isinstance(v, float) else v) for k_, v in infs.items()},
+                        expected={k_: (float(v) if isinstance(v, float) else v) for k_, v in inff.items()})
+    return None
+
+
+def gen_small_growth(rng):
+    """rank-1 start, dr_min >= 1, shapes made of mode sizes 1, 2 (and 3): the working ranks must reach rho"""
+    d = rng.choice([2, 3, 3, 4, 5, 6])
+    ns = [rng.choice([1, 2, 2, 2, 3]) for _ in range(d)]
+    if rng.random() < 0.3:
+        ns = [2] * d
+    rho = [1]
+    for k in range(1, d):
+        cap = min(int(np.prod(ns[:k])), int(np.prod(ns[k:])))
+        rho.append(rng.randint(1, min(3, cap)))
+    rho.append(1)
+    for _ in range(d):
+        for k in range(1, d):
+            rho[k] = min(rho[k], rho[k - 1] * ns[k - 1], rho[k + 1] * ns[k])
+    dr_min = rng.choice([1, 1, 2])
+    return dict(ns=ns, rho=rho, r0=[1] * (d + 1), dr_min=dr_min, dr_max=rng.choice([dr_min, 2]),
+                nswp=max(rho) + d, seed=rng.randrange(10 ** 6), kind='grow', cache=rng.random() < 0.3, vld=False,
+                scale='1', must_reach=True)
+
+
+def maxvol_window_bad(shape, args, npick):
+    """utils._maxvol contract on one recorded call: n <= r -> all rows; else r + min(dr_min, dr_max, n - r) <= count <=
+    r + min(dr_max, n - r): growth happens whenever dr_min >= 1 and n > r"""
+    n, r = shape
+    a = list(args) + [None] * 5
+    dr_min = 0 if a[1] is None else a[1]
+    dr_max = 0 if a[2] is None else a[2]
+    if n <= r:
+        return None if npick == n else f'{npick} rows for a {n}x{r} matrix (expected all {n})'
+    hi = r + min(dr_max, n - r)
+    lo = r + min(dr_min, dr_max, n - r)
+    if not lo <= npick <= hi:
+        return f'{npick} rows for a {n}x{r} matrix with dr_min={dr_min}, dr_max={dr_max} (expected {lo}..{hi})'
     return None
 
 
@@ -439,12 +575,13 @@ def run_ltr(tn, c):
     cr = sys.modules['teneva.cross']
     A, Y0 = lowrank_target(c)
     d = len(c['ns'])
-    rec = dict(mv=[], it=[])
+    rec = dict(mv=[], it=[], mvargs=[])
     o_mv, o_it = tn._maxvol, cr._iter
 
     def w_mv(Am, *a, **k):
         I, B = o_mv(Am, *a, **k)
         rec['mv'].append((np.array(Am, copy=True), [int(x) for x in I], np.array(B, copy=True)))
+        rec['mvargs'].append(a)
         return I, B
 
     def w_it(Z, Ig, I, *a, **k):
@@ -483,7 +620,7 @@ def numeric_stream(R, ctx, tn):
     items, idbad, meta = [], [], []
     dist = dict(kinds={}, d={}, iters=0)
     for j in range(400 if ctx['thorough'] else 90):
-        c = gen_lowrank(rng)
+        c = gen_small_growth(rng) if j % 3 == 2 else gen_lowrank(rng)
         c['cache'] = False
         if max(c['ns']) > 4 and len(c['ns']) > 3:
             continue
@@ -495,6 +632,12 @@ def numeric_stream(R, ctx, tn):
             continue
         dist['kinds'][c['kind']] = dist['kinds'].get(c['kind'], 0) + 1
         dist['d'][d] = dist['d'].get(d, 0) + 1
+        wbad = [w for w in (maxvol_window_bad(mv[0].shape, a, len(mv[1])) for mv, a in zip(rec['mv'], rec['mvargs']))
+                if w]
+        if wbad:
+            idbad.append(dict(what='_maxvol row count outside the dr_min / dr_max window: ' + wbad[0],
+                              input=dict(lowrank=c)))
+            continue
         ps, L = [], [[]]
         for i in range(d):
             it, (Q, ind, B) = rec['it'][2 * d + i], rec['mv'][2 * d + i]
@@ -607,8 +750,20 @@ def correspondence(R, ctx):
                        comparison='info r / e_vld / e recomputed on the returned cores (bitwise); reference of e = '
                                   'copy made at sweep start = independent snapshot of the previous sweep',
                        distribution={}, first_mismatches=info_bad[:3]))
+    hbad, nh = [], 0
+    for _ in range(300 if thorough else 60):
+        h = gen_history(rng)
+        nh += 1
+        R.add_distinct(('history', h))
+        fl = oracle_history(tn, h)
+        if fl:
+            hbad.append(fl)
+    R.corr.append(dict(name='call histories: 2-3 cross calls sharing one info dict / the module default info, each vs the '
+                            'same call with a fresh info', cases=nh, mismatches=len(hbad),
+                       comparison='cores bitwise, nswp, stop, m, m_cache, r, e, e_vld, m_max, with_cache, cache dict',
+                       distribution={}, first_mismatches=hbad[:3]))
     bad_num = numeric_stream(R, ctx, tn)
-    return bad + [dict(input=['pair', f['input']]) for f in pair_bad + info_bad] + bad_num
+    return bad + [dict(input=['pair', f['input']]) for f in pair_bad + info_bad + hbad] + bad_num
 
 
 # ------------------------------------------------------------------------------------------------ search
@@ -620,8 +775,18 @@ def search(R, ctx, deep, hints):
     n1 = n2 = n3 = 0
     # 1. exactness on rank-rho targets
     err_hist = []
+    for h in hints[:30]:
+        try:
+            inp = h['input'][1]
+            if isinstance(inp, dict) and 'lowrank' in inp:
+                f = oracle_exact(tn, dict(inp['lowrank']))
+                if f:
+                    f['kind'] = 'exact'
+                    fails.append(f)
+        except Exception:
+            pass
     for j in range(4000 if deep else 600):
-        c = gen_lowrank(rng)
+        c = gen_small_growth(rng) if j % 3 == 2 else gen_lowrank(rng)
         n1 += 1
         f = oracle_exact(tn, c)
         if f:
@@ -664,6 +829,28 @@ def search(R, ctx, deep, hints):
             break
     R.search.append(dict(name='C05 oracle: cached vs uncached run (cores bitwise, counters, dictionary) and info of the '
                               'returned tensor', evaluations=n2 + n3, failures=len(fails) - k0, deep=deep))
+    # 3. call histories sharing info
+    k1, n4 = len(fails), 0
+    hs = []
+    for h in hints[:30]:
+        try:
+            inp = h['input'][1]
+            if isinstance(inp, dict) and 'history' in inp:
+                hs.append(inp['history'])
+        except Exception:
+            pass
+    for _ in range(600 if deep else 80):
+        hs.append(gen_history(rng))
+    for h in hs:
+        n4 += 1
+        f = oracle_history(tn, h)
+        if f:
+            f['kind'] = 'history'
+            fails.append(f)
+            if len(fails) - k1 >= 3:
+                break
+    R.search.append(dict(name='C05 oracle: sequences of cross calls sharing one info dict / the default info vs fresh calls',
+                         evaluations=n4, failures=len(fails) - k1, deep=deep))
     return fails
 
 
@@ -674,6 +861,10 @@ def replay(data):
     inp = p.get('input')
     if isinstance(inp, dict) and 'lowrank' in inp:
         f = oracle_exact(tn, inp['lowrank'])
+        print('replayed:', f)
+        return 1 if f else 0
+    if isinstance(inp, dict) and 'history' in inp:
+        f = oracle_history(tn, inp['history'])
         print('replayed:', f)
         return 1 if f else 0
     if isinstance(inp, dict) and 'ns' in inp:
